@@ -1,6 +1,7 @@
 package props
 
 import (
+	"context"
 	"fmt"
 	"os"
 	"sort"
@@ -117,6 +118,11 @@ func (w *c04Raw) problems() [][2]string {
 
 func c04Self(c *core.Ctx, idx int) { selfFkScenario(c, idx, "C04") }
 
+var c04SelfScript = []struct{ op, id, target, pin string }{
+	{"create-node", "n1", "n1", "p1"}, {"create-node", "n2", "n1", "p1"}, {"create-node", "n3", "n2", "p1"}, {"create-pin", "n3", "n3", "p1"},
+	{"delete-node", "n2", "", "p1"}, {"delete-pin", "n3", "", "p1"}, {"delete-node", "n1", "", "p1"},
+}
+
 // selfFkScenario runs the self-referencing-store history for property prop: C04 judges references and back-references,
 // C06 additionally scans the whole file for the id after every committed delete.
 func selfFkScenario(c *core.Ctx, idx int, prop string) {
@@ -131,6 +137,18 @@ func selfFkScenario(c *core.Ctx, idx int, prop string) {
 	pinKind := schema.FkIndex
 	if cascade {
 		kind, pinKind, nullable = schema.FkIndexCascade, schema.FkIndexCascade, false
+		if idx%6 == 2 {
+			// cascades along the self reference only: a pin restricts the delete of its node, so a cascade can be refused
+			// half-way (the delete of a descendant which a pin holds on to)
+			pinKind = schema.FkIndex
+		}
+	}
+	// in the cascade cases all operations of a case share one MutateContext (a caller which keeps its context for
+	// follow-up work): whatever an earlier, possibly refused, transaction left on it must not change a later one
+	var sharedCtx boltz.MutateContext
+	if cascade {
+		sharedCtx = boltz.NewMutateContext(context.Background())
+		c.Cover("self_fk_shape", "one MutateContext for all transactions of the case")
 	}
 	nodes := &schema.StoreDef{Type: "nodes", BasePath: []string{"stores"},
 		Fields: []schema.Field{{Name: "label", Kind: schema.KStr}, {Name: "parent", Kind: schema.KStr, FK: "nodes"},
@@ -175,7 +193,17 @@ func selfFkScenario(c *core.Ctx, idx int, prop string) {
 			target = id // the first node of a non-nullable store can only reference itself
 		}
 		pin := core.Pick(r, pinIds)
-		opErr := db.Update(nil, func(ctx boltz.MutateContext) error {
+		if cascade && pinKind == schema.FkIndex && step < len(c04SelfScript) {
+			// a chain n1 <- n2 <- n3 with a pin holding on to n3: the delete of n2 is refused in the middle of its
+			// cascade, then the root of the chain is deleted
+			sc := c04SelfScript[step]
+			op, id, pin = sc.op, sc.id, sc.pin
+			target = nil
+			if sc.target != "" {
+				target = sc.target
+			}
+		}
+		opErr := db.Update(sharedCtx, func(ctx boltz.MutateContext) error {
 			switch op {
 			case "create-node":
 				return nst.Store.Create(ctx, &schema.Ent{Id: id, Typ: "nodes", V: map[string]any{"label": "l", "parent": target}})
